@@ -427,17 +427,17 @@ def run(run, ctx):
 def finalize(run, ctx):
     q = ctx.tier == "quick"
     run.floors.update({
-        "schedules": 1200 if q else 30000,
-        "oracle:outcome_compared": 2500 if q else 60000,
-        "oracle:config_compared": 1200 if q else 30000,
-        "oracle:schemas_compared": 1200 if q else 30000,
-        "preemptions": 5000 if q else 100000,
-        "policy:single": 400 if q else 15000,
-        "policy:double": 150 if q else 5000,
-        "threads:3": 200 if q else 4000,
+        "schedules": 1700 if q else 45000,
+        "oracle:outcome_compared": 3700 if q else 90000,
+        "oracle:config_compared": 1700 if q else 45000,
+        "oracle:schemas_compared": 2500 if q else 60000,
+        "preemptions": 90000 if q else 1400000,
+        "policy:single": 800 if q else 26000,
+        "policy:double": 320 if q else 8000,
+        "threads:3": 300 if q else 5000,
     })
     for name in SC.ORDER:
-        run.floors[f"schedules:{name}"] = 100 if q else 2500
+        run.floors[f"schedules:{name}"] = 190 if q else 4000
     run.extra["distinct_interleavings"] = len(run.distinct)
     run.extra["yield_points_observed"] = int(run.counters.get("yield_points", 0))
     run.extra["scenarios"] = list(SC.ORDER)
